@@ -190,8 +190,9 @@ def make_targets(targets, timeout=1500):
 def build_property(pid: str, extra_dirs=()) -> Build:
     b = Build()
     t0 = time.time()
-    b.gate = grep_gate()
     dirs = [pid] + list(extra_dirs)
+    # the gate covers the files this property's theorems can depend on
+    b.gate = [g for g in grep_gate() if g.split("/", 1)[0] in set(dirs) | {"Common", "gen"}]
     targets = []
     for d in dirs:
         for p in sorted((COQ / d).glob("*.v")):
